@@ -14,11 +14,13 @@ _CHAN_NOTE = ("Trusts the vsim model of mutex/condition/join (POSIX semantics, s
               "behavioural ledger in harness/chan/chan.cpp (reads no field of struct channel) and AddressSanitizer. Interleavings are explored "
               "at channel-call granularity plus two explicit pauses of the writer inside write_map: before its first lock call, and between its "
               "wait-condition check and its sleep; abort_write+write_unmap is one writer step (as in source.c); a mapped reader maps again only "
-              "in the shape the runtime can reach (it holds everything committed; refused; then unmap(0)).")
+              "in the shape the runtime can reach (it holds everything committed; refused; then unmap(0)); channel_rewind is called at arbitrary moments at which the writer is idle. "
+              "The virtual clock often starts just before a full second (timespec carries).")
 
 _RT_NOTE = ("Trusts the vsim model (POSIX mutex/condition/join semantics, sequential consistency, scheduling points at platform calls, at "
             "every 4th consecutive clock read and - in about a quarter of the cases - at generated basic-block edges of the runtime/HAL/property "
-            "code (trace-pc-guard); no spurious wake-ups), the scripted mock devices (harness/rt/vmock.cpp) and the client grammar "
+            "code (trace-pc-guard); no spurious wake-ups), the scripted mock devices (harness/rt/vmock.cpp; a quarter of the streams use the shipped simulated cameras behind a recording "
+            "proxy device instead) and the client grammar "
             "(tier A: configure only while not running, MAP never on a mapped reader, whole-frame consumption, stop only for finite "
             "acquisitions - documented back-pressure makes the other programs hang by design). Rings hold 1.1-8 frames instead of 1 GiB "
             "(sink.c/filter.c compiled with channel_new renamed). Weak-memory effects and preemption inside one basic block are not explored.")
@@ -61,7 +63,8 @@ CHECKS = {
     "C08": _rt("Every mock device instance carries a life-cycle automaton (open once; start only when not started; exactly one stop per start; "
                "frame/append only while started; no call after close; closed exactly once by shutdown at the latest; released instances are "
                "snapshotted and re-compared). Client programs from the usage grammar (configure, start, trigger, monitor, stop, abort, "
-               "re-configure with other devices, stream on/off, shutdown+init, start while running, poll-then-continue-without-stop, and - in "
+               "re-configure with other devices (also with the new device's open refused), stream on/off, shutdown+init, start while running, "
+               "poll-then-continue-without-stop with device stops that take 5-25 ms, abort from a second thread while the first is inside acquire_stop, and - in "
                "C08 runs - configure while running) run under generated schedules; acquire_get_state == Running is cross-checked with live "
                "worker fibers and must be Armed after stop/abort. Two genuine defects of configure-while-running are recorded as known "
                "findings (DESIGN.md 8.1a) and tolerated by signature.",
@@ -118,7 +121,7 @@ CHECKS = {
         "text": "The shipped raw device is opened through the real driver table and driven through the HAL storage API with generated "
                 "frame-size sequences, packet groupings, URI spellings (plain/file://, relative/absolute), short-write and zero-length-write "
                 "patterns injected under platform.c's pwrite, repeated set/start/append/stop cycles on one device (fresh path per "
-                "acquisition, as the statement restricts), and a second device pointed at the running device's file (refused by the lock; must be harmless). After every acquisition in which start and all appends reported success the file is "
+                "acquisition, as the statement restricts), a second device pointed at the running device's file (refused by the lock; must be harmless), two devices open or running at the same time, and a scripted scenario in which descriptor numbers are reused across three devices after a failed append. Paths have varying lengths and are sometimes passed in oversized buffers. After every acquisition in which start and all appends reported success the file is "
                 "read back and must equal the concatenation of the appended packets byte for byte.",
         "note": "Trusts the vfd interposition (open/close/pwrite/flock of platform.c renamed), the scratch file system (/dev/shm), and the "
                 "generator's frame builder. Acquisitions during which the platform layer reported a failure to the device are not judged here (C16).",
@@ -201,13 +204,15 @@ CHECKS = {
     },
     "C11": {
         "level": "exploration",
-        "text": "Generated HAL call sequences on up to 3 cameras and 3 storages run against an in-process mock driver whose every response "
+        "text": "Generated HAL call sequences on up to 3 cameras and 3 storages run against a mock driver that reaches the HAL through the real "
+                "loader wrapper (loader.c dlopens a trampoline library next to the executable) and whose every response "
                 "(Ok/Err, any DeviceState incl. out-of-range) is scripted by the tape. A protocol monitor inside the mock flags stop without a "
                 "running device, get_frame/append outside running, calls after close, double/missing close (also on open failure paths); released "
-                "devices are snapshotted and re-compared after every step (a write after close is reported with its offset); the HAL-reported "
+                "devices are snapshotted and re-compared after every step (a write after close is reported with its offset) and are poisoned for "
+                "AddressSanitizer, so any access after close - a read, or a write of the value already there - aborts the case; the HAL-reported "
                 "state is compared with a transition model derived from the driver's last response.",
         "note": "Trusts the transition model in harness/hal/hal.cpp, complete callback tables, no calls on closed handles by the caller (HAL contract), "
-                "and that a released device is kept (not freed) by the mock so that a write is observable; AddressSanitizer for everything else.",
+                "and that a released device is kept (not freed, but ASan-poisoned) by the mock so that an access is observable; AddressSanitizer for everything else.",
         "technique": "property-based testing (rapidcheck call sequences x scripted driver responses) with protocol monitor; libFuzzer on the same target",
         "design_ref": "DESIGN.md section 3, harness hal",
     },
